@@ -43,6 +43,12 @@ def hetero_stacks(rnd, tier):
         steps.append({'act': 'stack', 'src': src,
                       'others': [rnd.randint(1, nobj) for _ in range(k)],
                       'args': {'dim': d2, 'aslist': rnd.random() < 0.5}})
+        if rnd.random() < 0.5:
+            # the same tail (one list object in the driver) on another head
+            steps.append({'act': 'stack', 'src': rnd.randint(1, nobj),
+                          'others': list(steps[-1]['others']),
+                          'args': {'dim': d2, 'aslist': True}})
+            steps[-2]['args']['aslist'] = True
         progs.append({'templates': [t, t], 'steps': steps})
     return progs
 
